@@ -65,7 +65,14 @@ fn state_op(plan: &mut Plan, rng: &mut Rng, term: usize, t: i64, scale: f32) {
     );
 }
 fn cmd_op(plan: &mut Plan, rng: &mut Rng, term: usize, t: i64) {
-    plan.push("SC", &[term as i64, t, rng.below(3) as i64, fb(rng.moderate_f32())]);
+    // "all finite values": now and then one whose image under a ratio leaves the f32 range (it is
+    // relayed as +-inf)
+    let v = if rng.chance(0.03) {
+        *rng.pick(&[f32::MAX, -f32::MAX, 1e37, -3e38, 3e36])
+    } else {
+        rng.moderate_f32()
+    };
+    plan.push("SC", &[term as i64, t, rng.below(3) as i64, fb(v)]);
 }
 
 fn ratio(rng: &mut Rng) -> f32 {
